@@ -44,6 +44,12 @@ def write_pair(dirpath, name, src_grid, ref_grid, src, ref, src_valid=None, ref_
         elif enc == 'mask':
             a[:, ~valid] = 77.0
             rasters.write_tif(path, grid, a, dtype=dtype, nodata=None, mask=valid, **(kw or {}))
+        elif enc == 'nodata_values':
+            # validity by the dataset metadata item NODATA_VALUES (one value per band; a pixel is invalid where all bands hold it)
+            a[:, ~valid] = 0.0
+            kw2 = dict(kw or {})
+            kw2['tags'] = dict(kw2.get('tags') or {}, NODATA_VALUES=' '.join(['0'] * a.shape[0]))
+            rasters.write_tif(path, grid, a, dtype=dtype, nodata=None, **kw2)
         elif enc == 'alpha':
             # 8-bit image with an alpha band whose valid pixels are partly semi-transparent (alpha 1..254 is valid for GDAL);
             # values must be integers in 0..255 and the band count 1 or 3
